@@ -3,7 +3,6 @@ import json
 import os
 import random
 import re
-import struct
 import time
 
 import sqwcorr as S
@@ -123,78 +122,11 @@ def gen_cases(rng, tier):
     return cases
 
 
-def run_harness(ctx, cases, batch=150):
-    results = []
-    for k in range(0, len(cases), batch):
-        payload = {'cases': [{kk: v for kk, v in c.items() if kk != 'tags'} for c in cases[k:k + batch]]}
-        results.extend(ctx.run_impl('sqw_impl.py', payload)['cases'])
-    return results
-
-
-def norm_reason(r):
-    r = re.sub(r'@\d+', '', r)
-    r = re.sub(r'\.\d+\.', '.N.', r)
-    return r
-
-
-def case_size(c):
-    return sum(cl.get('npix', 0) for cl in c['calls'])
-
-
-def py_structure(raw):
-    """the property statement evaluated directly on the bytes (used by search/replay): header, table, extents to EOF"""
-    bo = '<' if int.from_bytes(raw[:4], 'little') < int.from_bytes(raw[:4], 'big') else '>'
-    pos = 0
-
-    def u32():
-        nonlocal pos
-        v = struct.unpack(bo + 'I', raw[pos:pos + 4])[0]
-        pos += 4
-        return v
-
-    def chars():
-        nonlocal pos
-        n = u32()
-        s = raw[pos:pos + n]
-        pos += n
-        return s.decode('latin1')
-    prog = chars()
-    ver = struct.unpack(bo + 'd', raw[pos:pos + 8])[0]
-    pos += 8
-    ty, nd = u32(), u32()
-    bat_size = u32()
-    bat_begin = pos
-    nblocks = u32()
-    descs = []
-    for _ in range(nblocks):
-        t, n1, n2 = chars(), chars(), chars()
-        p = struct.unpack(bo + 'Q', raw[pos:pos + 8])[0]
-        pos += 8
-        sz, lk = u32(), u32()
-        descs.append({'type': t, 'name': [n1, n2], 'position': p, 'size': sz})
-    problems = []
-    if prog != 'horace' or ver != 4.0 or ty != 1:
-        problems.append('header')
-    if bat_size != pos - bat_begin:
-        problems.append('bat size field')
-    exp = pos
-    for d in descs:
-        if d['position'] != exp:
-            problems.append(f'extent of {d["name"]} starts at {d["position"]}, expected {exp}')
-        exp = d['position'] + d['size']
-    if exp != len(raw):
-        problems.append(f'last extent ends at {exp}, file has {len(raw)} bytes')
-    names = [tuple(d['name']) for d in descs]
-    if len(set(names)) != len(names):
-        problems.append('duplicate block in the table')
-    return {'byteorder': 'little' if bo == '<' else 'big', 'n_dims': nd, 'descs': descs, 'problems': problems}
-
-
 def correspondence(ctx):
     rng = random.Random(ctx.seed)
     cases = gen_cases(rng, ctx.tier)
     t0 = time.time()
-    results = run_harness(ctx, cases)
+    results = S.run_harness(ctx, cases)
     t_impl = time.time() - t0
     small_terms, small_idx, big_terms, big_idx = [], [], [], []
     raised = 0
@@ -229,12 +161,12 @@ def correspondence(ctx):
     by_key = {}
     for cid, why in fails.items():
         for part in why.split('+'):
-            key = norm_reason(part)
-            if key not in by_key or case_size(cases[cid]) < case_size(cases[by_key[key][0]]):
+            key = S.norm_reason(part)
+            if key not in by_key or S.case_size(cases[cid]) < S.case_size(cases[by_key[key][0]]):
                 by_key[key] = (cid, why)
     for key, (cid, why) in sorted(by_key.items()):
         c, r = cases[cid], results[cid]
-        st = py_structure(bytes.fromhex(r['file_hex']))
+        st = S.py_structure(bytes.fromhex(r['file_hex']))
         ctx.violation(key, f'SQW file written for {S.describe(c)} fails [{why}]: size {r["size"]} bytes; '
                            f'table {[(d["name"], d["position"], d["size"]) for d in st["descs"]]}; {st["problems"]}',
                       {'case': c, 'reason': why, 'file_size': r['size'], 'structure': st})
@@ -242,7 +174,7 @@ def correspondence(ctx):
     for c, r in zip(cases, results):
         if 'error' in r:
             continue
-        seen.add((tuple(cl['kind'] for cl in c['calls']), c['byteorder'], c['sink'], case_size(c), c['chunk'],
+        seen.add((tuple(cl['kind'] for cl in c['calls']), c['byteorder'], c['sink'], S.case_size(c), c['chunk'],
                   len(c['title']), r['size']))
     nontrivial = {s for s in seen if s[0]}
     ctx.coverage.update({
@@ -275,13 +207,13 @@ def search(ctx, broken):
         cases.append(S.mk_case(rng, [S.gen_call(rng, k, n=2) for k in seq], sink='bytesio', chunk=None, tags=['search-order']))
     for i, c in enumerate(cases):
         c['id'] = i
-    results = run_harness(ctx, cases)
+    results = S.run_harness(ctx, cases)
     found = []
     names_by_set = {}
-    for c, r in sorted(zip(cases, results), key=lambda cr: case_size(cr[0])):
+    for c, r in sorted(zip(cases, results), key=lambda cr: S.case_size(cr[0])):
         if 'error' in r:
             continue
-        st = py_structure(bytes.fromhex(r['file_hex']))
+        st = S.py_structure(bytes.fromhex(r['file_hex']))
         if st['problems']:
             key = 'format:extent:last-extent-ends-beyond-end-of-file' if any('last extent ends' in p for p in st['problems']) \
                 else 'structure:' + st['problems'][0].split(' ')[0]
@@ -292,7 +224,7 @@ def search(ctx, broken):
     for c, r in zip(cases, results):
         if 'error' in r or 'search-order' not in c['tags']:
             continue
-        st = py_structure(bytes.fromhex(r['file_hex']))
+        st = S.py_structure(bytes.fromhex(r['file_hex']))
         k = frozenset(cl['kind'] for cl in c['calls'])
         names = [tuple(d['name']) for d in st['descs']]
         if k in names_by_set and names_by_set[k][0] != names:
@@ -317,7 +249,7 @@ def replay(ctx, obj):
     if 'error' in r:
         print('SqwBuilder raised', r['error'])
         return 1
-    st = py_structure(bytes.fromhex(r['file_hex']))
+    st = S.py_structure(bytes.fromhex(r['file_hex']))
     print('file size', r['size'])
     for d in st['descs']:
         print('  block', d['name'], d['type'], 'position', d['position'], 'size', d['size'], 'end', d['position'] + d['size'])
